@@ -360,10 +360,10 @@ def rule_F3(ctx: Ctx) -> None:
         at = sp.args[1] if len(sp.args) > 1 else N.kwarg(sp, "indices_or_sections")
         ok = False
         slot = {"split": X.U(sp)}
-        if isinstance(at, ast.Subscript) and isinstance(at.value, ast.Call) and dotted_of(at.value.func) in ("np.cumsum", "numpy.cumsum"):
+        if isinstance(at, ast.Subscript) and X.np_method(at.value, "cumsum"):
             sf = N.slice_form(at.slice)
             ok = sf == ("slice", None, N.aff_key(N.affine(ast.Constant(-1))), None)
-            src = at.value.args[0]
+            src = X.np_method(at.value, "cumsum")[0]
             d = X.assignments_to(r.node, src.id) if isinstance(src, ast.Name) else [src]
             ok = ok and len(d) == 1 and X.keys_read(d[0], r.params()[1]) == {"maze_solution_lengths"}
             cat_src = sp.args[0]
